@@ -16,6 +16,7 @@ type vrtUpstream struct {
 	calls int
 	rcode int
 	ttl   uint32
+	trunc bool // the upstream's reply is truncated
 }
 
 func (u *vrtUpstream) Exec(ctx context.Context, qCtx *query_context.Context) error {
@@ -26,6 +27,7 @@ func (u *vrtUpstream) Exec(ctx context.Context, qCtx *query_context.Context) err
 	r := new(dns.Msg)
 	r.SetReply(qCtx.Q())
 	r.Rcode = u.rcode
+	r.Truncated = u.trunc
 	if u.rcode == dns.RcodeSuccess {
 		r.Answer = []dns.RR{&dns.A{Hdr: dns.RR_Header{Name: "a.", Rrtype: dns.TypeA, Class: dns.ClassINET, Ttl: u.ttl}, A: []byte{192, 0, 2, 1}}}
 	}
@@ -60,7 +62,7 @@ func vrtCtx(q *dns.Msg) (*query_context.Context, bool) {
 // DNSSEC flags, and then carries q2's own ID and question.
 func vrtHarness_C04_exec() {
 	c := NewCache(&Args{Size: 1024}, Opts{})
-	up := &vrtUpstream{ttl: 300}
+	up := &vrtUpstream{ttl: 300, trunc: vrtChoice(2) == 1}
 	switch vrtChoice(3) {
 	case 1:
 		up.rcode = dns.RcodeNameError
@@ -89,6 +91,7 @@ func vrtHarness_C04_exec() {
 	vrtCover("second query served from cache", resolved)
 	vrtCover("second query not served from cache", !resolved)
 	vrtAssert("a cached answer is only served to the same question with the same AD/CD/DO flags", vrtImplies(resolved, same))
+	vrtAssert("a truncated reply is never stored: the next query goes upstream again", vrtImplies(up.trunc, !resolved))
 	r := ctx2.R()
 	vrtAssert("an answer exists", r != nil)
 	if resolved {
